@@ -266,8 +266,10 @@ type TagDeepInner struct {
 // wherever the value is addressable
 type VTPMStruct struct{ A int }
 
-func (v VTPMStruct) MarshalText() ([]byte, error)  { return []byte(fmt.Sprintf("text%d", v.A)), nil }
-func (v *VTPMStruct) MarshalJSON() ([]byte, error) { return []byte(fmt.Sprintf(`{"json":%d}`, v.A)), nil }
+func (v VTPMStruct) MarshalText() ([]byte, error) { return []byte(fmt.Sprintf("text%d", v.A)), nil }
+func (v *VTPMStruct) MarshalJSON() ([]byte, error) {
+	return []byte(fmt.Sprintf(`{"json":%d}`, v.A)), nil
+}
 
 // string kind with text methods: as a map key encoding/json writes the string itself but decodes through UnmarshalText
 type VTString string
